@@ -261,25 +261,29 @@ theorem IMemo.insert {fa : Bool} {Q : List Nat} {rU rV : Nat → Nat} {t : Tbl}
 * `umap` sends every level that is not quantified to a declared level (`rU`);
 * `vmap` sends every level of `S` to a declared level (`rV`), is STRICTLY INCREASING on `S`
   (the code's "neighbours" assumption is used only through this), and does not move the
-  terminal's level `N`. -/
-structure ImgOK (umap vmap : Option (List (Int × Int))) (Q : List Nat) (rU rV : Nat → Nat)
-    (S : Nat → Prop) (N : Nat) : Prop where
+  terminal's level `N`;
+* no such level is a key whose value is not a level (`ubad`, `vbad`: undeclared names). -/
+structure ImgOK (umap vmap : Option (List (Int × Int))) (ubad vbad : List Int) (Q : List Nat)
+    (rU rV : Nat → Nat) (S : Nat → Prop) (N : Nat) : Prop where
   uval : ∀ z, z < N → z ∉ Q → mapLvl umap (z : Int) = (rU z : Int) ∧ rU z < N
   vval : ∀ j, S j → mapLvl vmap (j : Int) = (rV j : Int) ∧ rV j < N
   vterm : mapLvl vmap (N : Int) = (N : Int)
   mono : ∀ j j', S j → S j' → j < j' → rV j < rV j'
+  ubad : ∀ z, z < N → z ∉ Q → ubad.contains (z : Int) = false
+  vbad : ∀ j, S j ∨ j = N → vbad.contains (j : Int) = false
 
 /-- `_image`: with reordering not enabled the recursion is total, only adds nodes, keeps its
 memo (keyed by the pair) sound, and returns the reference of
 `rename_U (Q qvars. u ∧ rename_V v)`.  No condition relates the variable order to `umap`: the
 result at a level that is not quantified is built with `ite(var, q, p)`. -/
-theorem imageF_spec (umap vmap : Option (List (Int × Int))) (Q : List Nat) (fa : Bool)
-    (rU rV : Nat → Nat) (S : Nat → Prop) (N : Nat) (hP : ImgOK umap vmap Q rU rV S N) :
+theorem imageF_spec (umap vmap : Option (List (Int × Int))) (ubad vbad : List Int) (Q : List Nat)
+    (fa : Bool) (rU rV : Nat → Nat) (S : Nat → Prop) (N : Nat)
+    (hP : ImgOK umap vmap ubad vbad Q rU rV S N) :
     ∀ (f : Nat) (m : Mgr) (u v : Int) (cache : HashMap (Int × Int) Int),
     Inv m → m.lastLen = none → m.nvars = N → m.tbl.Mem u → m.tbl.Mem v →
     (∀ j, InSupp m.tbl v j → S j) → IMemo fa Q rU rV m.tbl cache →
     2 * m.nvars + 1 ≤ f + m.tbl.levelOf u + m.tbl.levelOf v →
-    ∃ r c' m', imageF umap vmap Q fa f u v cache m = (.ok (r, c'), m') ∧ Step m m' ∧
+    ∃ r c' m', imageF umap vmap ubad vbad Q fa f u v cache m = (.ok (r, c'), m') ∧ Step m m' ∧
       IMemo fa Q rU rV m'.tbl c' ∧ IPost fa Q rU rV m'.tbl u v r := by
   intro f
   induction f with
@@ -339,6 +343,15 @@ theorem imageF_spec (umap vmap : Option (List (Int × Int))) (Q : List Nat) (fa 
               obtain ⟨h1, h2⟩ := hP.vval _ hs
               exact ⟨rV n.lvl, by rw [hl]; exact h1, fun _ => by rw [hl]; exact ⟨rfl, h2⟩,
                 fun h => absurd h hv1⟩
+          have hvb : vbad.contains (m.tbl.levelOf v : Int) = false := by
+            apply hP.vbad
+            by_cases hv1 : v.natAbs = 1
+            · right; rw [levelOf_term _ _ hv1, ← hnv, hN]
+            · left
+              obtain ⟨n, hn⟩ := mem_node hv hv1
+              rw [levelOf_node m.tbl v n hv1 hn]
+              exact hS _ (.here hv1 hn)
+          simp only [hvb, Bool.false_eq_true, if_false]
           rw [hivE]
           generalize hzN : min (m.tbl.levelOf u) ivN = zN
           have hzE : min ((m.tbl.levelOf u : Nat) : Int) (ivN : Int) = (zN : Int) := by omega
@@ -466,6 +479,7 @@ theorem imageF_spec (umap vmap : Option (List (Int × Int))) (Q : List Nat) (fa 
           · have hqc : Q.contains zN = false := by simpa using hq
             simp only [hqc, Bool.false_eq_true, if_false]
             obtain ⟨hmE, hmlt⟩ := hP.uval zN hzlt hq
+            simp only [hP.ubad zN hzlt hq, Bool.false_eq_true, if_false]
             rw [hmE]
             obtain ⟨g, m3, he3, hs3, hg3, _, hd3⟩ := varNode_off m2 hs2.inv hoff2 (rU zN)
               (by rw [hs12.nvars, hN]; exact hmlt)
@@ -499,14 +513,14 @@ theorem imageF_spec_image (rn : List (Int × Int)) (Q : List Nat) (fa : Bool) (r
       (rn.lookup (z : Int)).getD (z : Int) = (ren z : Int) ∧ ren z < m.nvars)
     (hmemo : IMemo fa Q ren id m.tbl cache)
     (hfuel : 2 * m.nvars + 1 ≤ f + m.tbl.levelOf u + m.tbl.levelOf v) :
-    ∃ r c' m', imageF (some rn) none Q fa f u v cache m = (.ok (r, c'), m') ∧
+    ∃ r c' m', imageF (some rn) none [] [] Q fa f u v cache m = (.ok (r, c'), m') ∧
       Inv m' ∧ Ext m.tbl m'.tbl ∧ Frame m m' ∧ IMemo fa Q ren id m'.tbl c' ∧ m'.tbl.Mem r ∧
       ∀ a, den m'.tbl r a = true ↔
         qsem fa Q (fun b => den m.tbl u b && den m.tbl v b) (fun z => a (ren z)) := by
   have hW := hI.wf.toWF
-  have hP : ImgOK (some rn) none Q ren id (fun j => j < m.nvars) m.nvars :=
-    ⟨hren, fun j hj => ⟨rfl, hj⟩, rfl, fun _ _ _ _ h => h⟩
-  obtain ⟨r, c', m', he, hs, hm, hp⟩ := imageF_spec (some rn) none Q fa ren id _ m.nvars hP
+  have hP : ImgOK (some rn) none [] [] Q ren id (fun j => j < m.nvars) m.nvars :=
+    ⟨hren, fun j hj => ⟨rfl, hj⟩, rfl, fun _ _ _ _ h => h, fun _ _ _ => rfl, fun _ _ => rfl⟩
+  obtain ⟨r, c', m', he, hs, hm, hp⟩ := imageF_spec (some rn) none [] [] Q fa ren id _ m.nvars hP
     f m u v cache hI hoff rfl hu hv (fun j hj => hj.lt_nvars hW) hmemo hfuel
   refine ⟨r, c', m', he, hs.inv, hs.ext, hs.frame, hm, hp.mr, ?_⟩
   intro a
@@ -526,14 +540,14 @@ theorem imageF_spec_preimage (rn : List (Int × Int)) (Q : List Nat) (fa : Bool)
     (hmono : ∀ j j', S j → S j' → j < j' → rV j < rV j')
     (hmemo : IMemo fa Q id rV m.tbl cache)
     (hfuel : 2 * m.nvars + 1 ≤ f + m.tbl.levelOf u + m.tbl.levelOf v) :
-    ∃ r c' m', imageF none (some rn) Q fa f u v cache m = (.ok (r, c'), m') ∧
+    ∃ r c' m', imageF none (some rn) [] [] Q fa f u v cache m = (.ok (r, c'), m') ∧
       Inv m' ∧ Ext m.tbl m'.tbl ∧ Frame m m' ∧ IMemo fa Q id rV m'.tbl c' ∧ m'.tbl.Mem r ∧
       ∀ a, den m'.tbl r a = true ↔
         qsem fa Q (fun b => den m.tbl u b && den m.tbl v (fun j => b (rV j))) a := by
   have hW := hI.wf.toWF
-  have hP : ImgOK none (some rn) Q id rV S m.nvars :=
-    ⟨fun z hz _ => ⟨rfl, hz⟩, hval, hterm, hmono⟩
-  obtain ⟨r, c', m', he, hs, hm, hp⟩ := imageF_spec none (some rn) Q fa id rV S m.nvars hP
+  have hP : ImgOK none (some rn) [] [] Q id rV S m.nvars :=
+    ⟨fun z hz _ => ⟨rfl, hz⟩, hval, hterm, hmono, fun _ _ _ => rfl, fun _ _ => rfl⟩
+  obtain ⟨r, c', m', he, hs, hm, hp⟩ := imageF_spec none (some rn) [] [] Q fa id rV S m.nvars hP
     f m u v cache hI hoff rfl hu hv hS hmemo hfuel
   refine ⟨r, c', m', he, hs.inv, hs.ext, hs.frame, hm, hp.mr, ?_⟩
   intro a
